@@ -83,7 +83,16 @@ def run_prop(run, scr, tier, seed, prop, e1=None, diff=(), diff_load=(2, 8), ext
         hs = e1
         if only:
             hs = [h for h in hs if any(o in h.name for o in only)]
-        results = vlib.run_kani(scr, hs, jobs=6)
+        try:
+            results = vlib.run_kani(scr, hs, jobs=6)
+        except vlib.BuildError as ex:
+            # the in-crate harness module no longer compiles (typically: a crate-internal signature changed).  The solver part of E1 is
+            # unavailable; the native confirmations below run unconditionally and a reproduced failure is still a violation
+            results = []
+            tail = str(ex)[-400:].replace('\n', ' ')
+            run.add_query({'name': 'Kani harness module builds against this tree', 'engine': 'rustc (Kani build)', 'verdict': 'unknown', 'detail': tail}, core=False)
+            run.inconclusive.append('Kani harness module does not build on this tree (changed internal signature?): ' + tail[-200:])
+            mism.append({'name': 'wrappers:: Kani harnesses unavailable (build error); native confirmations run unconditionally', 'detail': tail})
         for r in results:
             if r.status == 'failed':
                 own, other = wrapc.split_failures(r, prop)
